@@ -50,6 +50,41 @@ Lemma find_idx_none s chars : Forall (fun c => str_in [c] chars = false) s -> fi
 Proof. induction 1 as [|c r H _ IH]; cbn; [reflexivity|]. now rewrite H, IH. Qed.
 
 (** ** the regular expression *)
+(** ** _find_next_character from a position *)
+Lemma py_for_find_off : forall (F : unit -> Z * pystr -> res (loopres Z unit)) chars off,
+  (forall st idx tok, F st (idx, tok) = if str_in tok chars then Ok (RReturn (idx + off)%Z) else Ok (RNext tt)) ->
+  forall (s : pystr) (k : nat),
+  py_for (combine (map (fun i => (0 + Z.of_nat i)%Z) (seq k (length (map (fun c_ => [c_]) s)))) (map (fun c_ => [c_]) s)) tt F
+  = Ok (if (find_idx s chars <? length s)%nat then RReturn (Z.of_nat (k + find_idx s chars) + off) else RNext tt).
+Proof.
+  intros F chars off HF. induction s as [|c r IH]; intros k.
+  - reflexivity.
+  - cbn [map length seq combine py_for find_idx]. rewrite HF.
+    destruct (str_in [c] chars) eqn:E.
+    + cbn. rewrite Nat.add_0_r. reflexivity.
+    + cbn [bind ret]. rewrite IH. f_equal.
+      change (length (c :: r)) with (Datatypes.S (length r)).
+      destruct (find_idx r chars <? length r)%nat eqn:L.
+      * assert (H : (Datatypes.S (find_idx r chars) <? Datatypes.S (length r))%nat = true)
+          by (apply Nat.ltb_lt; apply Nat.ltb_lt in L; lia).
+        rewrite H. f_equal. lia.
+      * assert (H : (Datatypes.S (find_idx r chars) <? Datatypes.S (length r))%nat = false)
+          by (apply Nat.ltb_ge; apply Nat.ltb_ge in L; lia).
+        rewrite H. reflexivity.
+Qed.
+Lemma fnc_from_spec s chars k : (k <= length s)%nat -> fnc_from s chars k = Ok (k + find_idx (skipn k s) chars)%nat.
+Proof.
+  intros Hk. unfold fnc_from, find_next_character, unwrap_return, py_slice_from_z, enumerate_from.
+  cbn [bind ret].
+  assert (E0 : (Z.of_nat k <? 0) = false) by (apply Z.ltb_ge; lia). rewrite E0. rewrite Nat2Z.id.
+  cbn [bind ret].
+  rewrite (py_for_find_off _ chars (Z.of_nat k)) by (intros st idx tok; reflexivity). cbn [bind ret].
+  pose proof (find_idx_le (skipn k s) chars) as Hle. rewrite skipn_length in *.
+  destruct (find_idx (skipn k s) chars <? length s - k)%nat eqn:L; cbn [bind ret].
+  - f_equal. lia.
+  - apply Nat.ltb_ge in L. f_equal. lia.
+Qed.
+
 Definition name_char (c : ascii) : Prop := c <> "]"%char /\ c <> ch_nl.
 Lemma until_close_app n rest : Forall name_char n -> until_close (n ++ "]"%char :: rest) = Some (n, rest).
 Proof.
